@@ -899,9 +899,9 @@ func (e *CEnv) bytesOf(x CVal) *Term {
 		return e.mkBStr(w, IntLit(u.Len()))
 	case *types.Basic:
 		if u.Info()&types.IsString != 0 {
-			v.d.declareFun("str.bytes", []string{SStr}, SArr(SInt, v.byteSort()))
+			v.d.declareFun("gstr.bytes", []string{SStr}, SArr(SInt, v.byteSort()))
 			n := v.strLen(x.T)
-			w := v.window(e.st, mk("str.bytes", SArr(SInt, v.byteSort()), x.T), IntLit(0), n)
+			w := v.window(e.st, mk("gstr.bytes", SArr(SInt, v.byteSort()), x.T), IntLit(0), n)
 			return e.mkBStr(w, n)
 		}
 	case *types.Pointer:
